@@ -67,6 +67,22 @@ Definition as_bytes_kind (raw_private : bool) (enc : encoding) (private : pv) (p
   | Err e => Err e
   end.
 
+(* key generation entry points: <Class>.generate_key, JWKRegistry.generate_key (known /
+   unknown key type), KeySet.generate_key_set(count) *)
+Inductive gen_entry := GClass | GRegistry | GRegistryUnknown | GKeySet (count : nat).
+
+Definition gen_is_private (en : gen_entry) (k : kind) (private : pv) : res (list bool) :=
+  let one (r : res (gkey unit unit)) :=
+    do g <- r; Ok [g_is_private unit unit g] in
+  match en with
+  | GClass => one (class_generate unit unit (fun _ => tt) (fun _ _ => tt) k 0 private)
+  | GRegistry => one (registry_generate unit unit (fun _ => tt) (fun _ _ => tt) true k 0 private)
+  | GRegistryUnknown => one (registry_generate unit unit (fun _ => tt) (fun _ _ => tt) false k 0 private)
+  | GKeySet n =>
+      do l <- keyset_generate unit unit (fun _ => tt) (fun _ _ => tt) true k private n;
+      Ok (map (g_is_private unit unit) l)
+  end.
+
 Inductive c12case :=
 (* key.as_dict(private, **params): kind, raw key is a private native, dict_value *)
 | CAsDict (k : kind) (raw_private : bool) (d : kd) (private : pv) (params : kd) (expect : res kd)
@@ -85,6 +101,9 @@ Inductive c12case :=
        (hdr : kd) (expect : res kd)
 (* key.as_bytes(encoding, private, password): which native export happened *)
 | CAsBytes (raw_private : bool) (enc : encoding) (private : pv) (pw : bool) (expect : res export)
+(* is_private of the key(s) returned by a generating entry point called with flag [private]
+   (positionally or by keyword; an omitted flag is the default True) *)
+| CGen (en : gen_entry) (k : kind) (private : pv) (expect : res (list bool))
 (* registry flags seen through the live class: (name, bool(private), required) *)
 | CFlags (k : kind) (flags : list (str * bool * bool)).
 
@@ -95,43 +114,46 @@ Definition flags_eqb (a b : list (str * bool * bool)) : bool :=
   list_eqb (fun x y => let '(n, p, r) := x in let '(n', p', r') := y in
                        str_eqb n n' && Bool.eqb p p' && Bool.eqb r r') a b.
 
-Definition c12_out (c : c12case) : res (list kd) + res export + list (str * bool * bool) :=
+Definition c12_out (c : c12case) : res (list kd) + res export + list (str * bool * bool) + res (list bool) :=
   match c with
   | CAsDict k rp d private params _ =>
-      inl (inl (do o <- key_as_dict (mk_key (k, rp, d)) private params; Ok [o]))
+      inl (inl (inl (do o <- key_as_dict (mk_key (k, rp, d)) private params; Ok [o])))
   | CKeySet t keys private params _ =>
-      inl (inl (keyset_as_dict (table_H t) (map mk_key keys) private params))
-  | CThumbIn k d _ => inl (inl (do o <- thumb_input (value_registry k) d; Ok [o]))
-  | CEnsureKid k d t _ => inl (inl (do o <- ensure_kid (table_H t) (value_registry k) d; Ok [o]))
+      inl (inl (inl (keyset_as_dict (table_H t) (map mk_key keys) private params)))
+  | CThumbIn k d _ => inl (inl (inl (do o <- thumb_input (value_registry k) d; Ok [o])))
+  | CEnsureKid k d t _ => inl (inl (inl (do o <- ensure_kid (table_H t) (value_registry k) d; Ok [o])))
   | CEpk rk eph g fresh hdr _ =>
-      inl (inl (do r <- prepare_ephemeral_key (fun _ => mk_key fresh)
+      inl (inl (inl (do r <- prepare_ephemeral_key (fun _ => mk_key fresh)
                           {| k_kind := rk; k_raw_private := true; k_dict := [] |}
                           (option_map mk_key eph) g hdr;
-                Ok [snd r]))
-  | CAsBytes rp enc private pw _ => inl (inr (as_bytes_kind rp enc private pw))
-  | CFlags k _ => inr (reg_flags (value_registry k))
+                Ok [snd r])))
+  | CAsBytes rp enc private pw _ => inl (inl (inr (as_bytes_kind rp enc private pw)))
+  | CFlags k _ => inl (inr (reg_flags (value_registry k)))
+  | CGen en k private _ => inr (gen_is_private en k private)
   end.
 
 Definition c12_check (c : c12case) : bool :=
   match c, c12_out c with
-  | CAsDict _ _ _ _ _ e, inl (inl r) =>
+  | CAsDict _ _ _ _ _ e, inl (inl (inl r)) =>
       res_eqb (list_eqb kd_eqb) r (do o <- e; Ok [o])
-  | CKeySet _ _ _ _ e, inl (inl r) => res_eqb (list_eqb kd_eqb) r e
-  | CThumbIn _ _ e, inl (inl r) => res_eqb (list_eqb kd_eqb) r (do o <- e; Ok [o])
-  | CEnsureKid _ _ _ e, inl (inl r) => res_eqb (list_eqb kd_eqb) r (do o <- e; Ok [o])
-  | CEpk _ _ _ _ _ e, inl (inl r) => res_eqb (list_eqb kd_eqb) r (do o <- e; Ok [o])
-  | CAsBytes _ _ _ _ e, inl (inr r) => res_eqb export_eqb r e
-  | CFlags _ f, inr g => flags_eqb g f
+  | CKeySet _ _ _ _ e, inl (inl (inl r)) => res_eqb (list_eqb kd_eqb) r e
+  | CThumbIn _ _ e, inl (inl (inl r)) => res_eqb (list_eqb kd_eqb) r (do o <- e; Ok [o])
+  | CEnsureKid _ _ _ e, inl (inl (inl r)) => res_eqb (list_eqb kd_eqb) r (do o <- e; Ok [o])
+  | CEpk _ _ _ _ _ e, inl (inl (inl r)) => res_eqb (list_eqb kd_eqb) r (do o <- e; Ok [o])
+  | CAsBytes _ _ _ _ e, inl (inl (inr r)) => res_eqb export_eqb r e
+  | CFlags _ f, inl (inr g) => flags_eqb g f
+  | CGen _ _ _ e, inr r => res_eqb (list_eqb Bool.eqb) r e
   | _, _ => false
   end.
 
 (* compact rendering for failing cases: member names only (values can be large) *)
 Definition show_str (s : str) : string := string_of_list_ascii (map ascii_of_N s).
 Definition show_kd (d : kd) : list string := map (fun kv => show_str (fst kv)) d.
-Definition c12_show (c : c12case) : res (list (list string)) + res export + list (str * bool * bool) :=
+Definition c12_show (c : c12case) : res (list (list string)) + res export + list (str * bool * bool) + res (list bool) :=
   match c12_out c with
-  | inl (inl (Ok l)) => inl (inl (Ok (map show_kd l)))
-  | inl (inl (Err e)) => inl (inl (Err e))
-  | inl (inr r) => inl (inr r)
-  | inr f => inr f
+  | inl (inl (inl (Ok l))) => inl (inl (inl (Ok (map show_kd l))))
+  | inl (inl (inl (Err e))) => inl (inl (inl (Err e)))
+  | inl (inl (inr r)) => inl (inl (inr r))
+  | inl (inr f) => inl (inr f)
+  | inr g => inr g
   end.
